@@ -124,7 +124,9 @@ def poly(ctx, f, e, depth=0):
         if d is not None and isinstance(d, (ast.BinOp, ast.Subscript, ast.Name)):
             return poly(ctx, f, d, depth + 1)
         return {(e.id,): 1}
-    return {(pat.inline(ctx, f, e).replace(" ", "").replace('"', "'"),): 1}
+    # a subscripted temporary (`rank_spec['pbits']`) reads as what it holds
+    t = pat.inline(ctx, f, e) if isinstance(e, ast.Subscript) else text(e)
+    return {(t.replace(" ", "").replace('"', "'"),): 1}
 
 
 def r2(ctx):
